@@ -141,8 +141,9 @@ theorem doc_quote_newline_stable (doc : List Char) :
     universalNl (quoteDocstring doc) = quoteDocstring doc :=
   universalNl_noCr _ (quoteDocstring_noCr doc)
 
-/-- … and neither does the line re-join `"\n".join(source.splitlines())` that the `Formula`
-constructor and `FunctionDefParser` apply to the source of a def: a docstring written by
+/-- … and neither does the line re-join `"\n".join(source.splitlines())` that `FunctionDefParser`
+applies to the source of a def when a model is read (the `Formula` constructor cuts at `\r\n`, `\r`,
+`\n` only since 067a1c5 – a coarser cut, for which the same holds): a docstring written by
 `quote_docstring` (`set_doc`) inside a def whose text before it has no such character
 either stays where it is, character for character. -/
 theorem doc_quote_survives_line_rejoin (doc pre post : List Char)
